@@ -224,6 +224,9 @@ static void c04(const Trace& t, const Analysis& A, Verdict& V) {
 			const Ev& e = t.ev[w.e - 1];
 			const uint8_t want = w.survivor >= 0 ? w.rounds[w.survivor].pend.dest : w.activeBefore;
 			if (w.rounds.size() >= f.L && e.mAct != want) V.add(4, w.e - 1, F("limit reached: active=%d but the surviving request names %d", sidOf(e.mAct), sidOf(want)));
+			// the substitution loop may also use up iterations on requests it drops as duplicates (no guard round is visible for those), so the
+			// same outcome rule is applied to every call that needed more than one round
+			else if (w.rounds.size() >= 2 && e.mAct != want) V.add(4, w.e - 1, F("after %zu guard rounds the call ended in s%d, but the state chosen among the requests that passed their guards is s%d", w.rounds.size(), sidOf(e.mAct), sidOf(want)));
 			if (e.mAct == NOID) V.add(4, w.e - 1, "call ended without an active state");
 			// a request left over by the limit must be guarded before it is applied
 			if (w.leftoverFromLimit && w.outAtStart.valid) {
@@ -500,6 +503,25 @@ static void c14(const Trace& t, const Analysis& A, Verdict& V) {
 		const Ev& e = t.ev[i];
 		if (e.kind != EV_CB || instDeadAt(A, i)) continue;
 		if (!e.thisOk) V.add(14, i, F("s%d.%s ran on an object that is not machine.access<T>() (who=%d)", sidOf(e.state), methName(e.method), e.who == WHO_SELF ? -1 : e.who));
+	}
+	const Info& f = t.info;
+	for (const Win& w : A.wins) {
+		if (!w.complete || w.aborted || A.ann[w.b].dead) continue;
+		bool guardActed = false;
+		for (const Round& r : w.rounds) if (r.madeReq || r.cancelled) guardActed = true;
+		const Ev& e = t.ev[w.e - 1];
+		// the first declared state is the initial state (however the machine was constructed)
+		if (w.activation && !guardActed) {
+			if (e.mAct != 0) V.add(14, w.e - 1, F("after activation the active state is %d, not the first declared state", sidOf(e.mAct)));
+			for (uint32_t i = w.b; i < w.e; ++i) { const Ev& x = t.ev[i]; if (x.inst == w.inst && x.kind == EV_CB && x.state != NOID && x.state != 0) { V.add(14, i, F("activation ran s%d.%s although the first declared state is the initial state", x.state, methName(x.method))); break; } }
+			if (!(f.bare & 1)) { bool entered = false; for (uint32_t i = w.b; i < w.e; ++i) { const Ev& x = t.ev[i]; if (x.inst == w.inst && x.kind == EV_CB && x.state == 0 && x.method == M_ENTER && x.who == WHO_SELF) entered = true; } if (!entered) V.add(14, w.e - 1, "activation did not run enter() of the first declared state"); }
+		}
+		// a request for id k that no guard touches activates exactly the k-th declared state, and only the two states involved see callbacks
+		if (w.processing && w.rounds.size() == 1 && !guardActed && w.rounds[0].pend.valid && !f.bare) {
+			const uint8_t k = w.rounds[0].pend.dest;
+			if (e.mAct != k) V.add(14, w.e - 1, F("a request for state id %u, untouched by guards, activated s%d", k, sidOf(e.mAct)));
+			for (uint32_t i = w.rounds[0].first; i < w.e; ++i) { const Ev& x = t.ev[i]; if (x.inst == w.inst && x.kind == EV_CB && x.state != NOID && x.state != k && x.state != w.activeBefore) { V.add(14, i, F("s%d.%s ran while a transition s%d -> s%u was being applied", x.state, methName(x.method), sidOf(w.activeBefore), k)); break; } }
+		}
 	}
 }
 
